@@ -87,6 +87,12 @@ func (c *Conversation) verifySMP3(s2 *smp2State, msg smp3Message) error {
 		return newOtrError("Ra is an invalid group element")
 	}
 
+	if mod(msg.pa, p).Sign() == 0 || mod(msg.qa, p).Sign() == 0 || mod(msg.ra, p).Sign() == 0 {
+		// 0 is in no version an element of the group: with Pa and Ra congruent to 0 the final comparison holds
+		// whatever the secret is (OTRv2 performs no group checks above)
+		return newOtrError("Pa, Qa or Ra is congruent to zero")
+	}
+
 	if !verifyZKP3(msg.cp, s2.g2, s2.g3, msg.d5, msg.d6, msg.pa, msg.qa, 6, c.version) {
 		return newOtrError("cP is not a valid zero knowledge proof")
 	}
